@@ -120,8 +120,57 @@ func mkInput(dec string, ty spec.T, data []byte, ops []string, rel string, chang
 }
 
 // genMutValue: mut/json-value and mut/msgpack-value.
+// siblingKeyRespell builds the encoding of an object (alone, in a list or in a
+// tuple) with two or three attributes, one of whose names has two canonically
+// equivalent spellings, and writes the OTHER spelling of that name over the key
+// of a sibling attribute: the document then names one attribute twice, in two
+// spellings, and lacks another - with the right number of entries.
+func siblingKeyRespell(t *rapid.T, format string) (data []byte, ty spec.T, ok bool) {
+	pair := rapid.SampledFrom([][2]string{{"\u00e9", "e\u0301"}, {"\u00c5", "A\u030a"}, {"\uac00", "\u1100\u1161"}}).Draw(t, "spellings")
+	sib := rapid.SampledFrom([]string{"b", "name", "zz"}).Draw(t, "sibling")
+	attrs := []spec.Attr{{Name: pair[0], T: rapid.SampledFrom([]spec.T{spec.String, spec.Number, spec.Bool}).Draw(t, "t1")}, {Name: sib, T: rapid.SampledFrom([]spec.T{spec.String, spec.Number}).Draw(t, "t2")}}
+	if rapid.Bool().Draw(t, "third") {
+		attrs = append(attrs, spec.Attr{Name: "c", T: spec.Bool})
+	}
+	obj := spec.Object(attrs...)
+	ty = obj
+	switch rapid.IntRange(0, 2).Draw(t, "nest") {
+	case 1:
+		ty = spec.List(obj)
+	case 2:
+		ty = spec.Tuple(spec.String, obj)
+	}
+	v := gen.Value(ty, gen.ValOpts{Simple: true, RootKnown: true, MaxElems: 2}).Draw(t, "value")
+	enc, encOK := encode(format, v, ty)
+	if !encOK {
+		return nil, ty, false
+	}
+	alt := pair[1]
+	if format == "msgpack" {
+		items := scanMsgpack(enc)
+		for _, it := range items {
+			if it.Kind == 's' && it.Off+it.Hdr+it.N <= len(enc) && string(enc[it.Off+it.Hdr:it.Off+it.Hdr+it.N]) == sib {
+				return splice(enc, it.Off, it.Off+it.Hdr+it.N, append(mpMakeHeader('s', uint32(len(alt)), false, 0), alt...)), ty, true
+			}
+		}
+		return nil, ty, false
+	}
+	toks := scanJSON(enc)
+	for i, k := range toks {
+		if k.Kind == 's' && i+1 < len(toks) && toks[i+1].Kind == ':' && string(enc[k.Off:k.End]) == `"`+sib+`"` {
+			return splice(enc, k.Off, k.End, []byte(`"`+alt+`"`)), ty, true
+		}
+	}
+	return nil, ty, false
+}
+
 func genMutValue(format, dec string) func(t *rapid.T) Input {
 	return func(t *rapid.T) Input {
+		if rapid.IntRange(0, 15).Draw(t, "siblingkey") == 8 {
+			if data, ty, ok := siblingKeyRespell(t, format); ok {
+				return mkInput(dec, ty, data, []string{"sibling-key-respell"}, "original", true)
+			}
+		}
 		orig, c := drawEncoding(t, format)
 		other, _ := drawEncoding(t, format)
 		ty, rel := targetType(t, c, format == "json")
